@@ -115,6 +115,8 @@ class Exec(Engine):
         f = n.func
         if isinstance(f, ast.Name) and f.id == 'Thread':
             return True
+        if isinstance(f, ast.Attribute) and ast.unparse(f) == 'object.__setattr__':
+            return True
         if isinstance(f, ast.Name) and st.has(f.id) and st.get(f.id).t.k == 'u' and (st.get(f.id).t.name, '__call__') in self.R.aliases:
             return True
         if isinstance(f, ast.Attribute) and isinstance(f.value, ast.Name) and st.has(f.value.id) and st.get(f.value.id).t.k == 'thread':
@@ -288,7 +290,14 @@ class Exec(Engine):
             if len(parts) > 1:
                 return self.exec_block_raw(parts, st)
             s = parts[0]
-        return m(s, st)
+        try:
+            return m(s, st)
+        except KeyError as ex:
+            nm = ex.args[0] if ex.args else None
+            if isinstance(nm, str) and nm in getattr(self, 'assigned_locals', ()):
+                # a local that is assigned somewhere in the function but not on this path: UnboundLocalError
+                return [Outcome('raise', st, {'exc': self.new_exc(st, 'UnboundLocalError'), 'implicit': f'local `{nm}` read before assignment'})]
+            raise
 
     def exec_block_raw(self, stmts, st):
         outs = [Outcome('next', st)]
@@ -926,6 +935,14 @@ class Exec(Engine):
     def exec_call(self, n: ast.Call, st: State, want_value: bool):
         """-> [Outcome]; a normal outcome carries the result value in .val"""
         f = n.func
+        if isinstance(f, ast.Attribute) and ast.unparse(f) == 'object.__setattr__' and len(n.args) == 3 \
+                and isinstance(n.args[1], ast.Constant) and isinstance(n.args[1].value, str):
+            # object.__setattr__(obj, 'name', value) on a frozen dataclass: a plain attribute store
+            tgt = ast.copy_location(ast.Attribute(value=n.args[0], attr=n.args[1].value, ctx=ast.Store()), n)
+            ev0 = Evaluator(self, st)
+            v0 = ev0.ev(n.args[2], self.lvalue_type(st, tgt))
+            outs0 = self.settle(st, ev0, n.lineno)
+            return outs0 + [Outcome(o.kind, o.st, SV(NONE, None) if o.kind == 'next' else o.val) for o in self.assign_to(tgt, v0, st, n.lineno)]
         # threading.Thread(target=<closure>): trusted model -- start() runs the closure to completion in another
         # thread (an exception there ends that thread only), join() waits for it.
         if isinstance(f, ast.Name) and f.id == 'Thread' and len(n.keywords) == 1 and n.keywords[0].arg == 'target' \
@@ -1935,6 +1952,7 @@ class Exec(Engine):
             pass
         for x in sorted((y for y in ast.walk(fn) if isinstance(y, (ast.For, ast.While))), key=lambda y: (y.lineno, y.col_offset)):
             self.loop_ordinals[(x.lineno, x.col_offset)] = len(self.loop_ordinals) + 1
+        self.assigned_locals = {x.id for x in ast.walk(fn) if isinstance(x, ast.Name) and isinstance(x.ctx, ast.Store)}
         self.call_lines = sorted({x.lineno for x in ast.walk(fn) if isinstance(x, (ast.Call, ast.For))})
         self.ret_local = self.find_ret_local(fn)
         self.ret_type = c.returns
